@@ -12,7 +12,7 @@ def cases_for(ctx):
     # (parrot, flags, first server message that is mutated)
     rep = [("Chrome-133", [], 1), ("Chrome-133", ["ccert", "alps", "sku"], 1), ("Chrome-133", ["hrr"], 1),
            ("Firefox-120", ["sku"], 1), ("Firefox-120", ["v12"], 1), ("Chrome-100_PSK", ["psk"], 1), ("Chrome-58", ["v12"], 1),
-           ("iOS-14", ["ccert"], 3)]     # zlib; SH and EE of this parrot add nothing new: start at the (compressed) certificate
+           ("Safari-16.0", ["ccert"], 3)]     # zlib; SH and EE of this parrot add nothing new: start at the (compressed) certificate
     if ctx.quick:
         rnd = random.Random(ctx.seed)
         extra = rnd.choice([i for i in ids if i not in {p for p, f, k in rep}])
